@@ -272,6 +272,24 @@ func genPathSet(rt *rapid.T, max int) []string {
 			set[p] = true
 		}
 	}
+	if v := rapid.IntRange(0, 99).Draw(rt, "longComponent"); v >= 40 && v <= 44 {
+		// component lengths around the sizes of read blocks (mode + name = 128, 256, 512 bytes) and NAME_MAX
+		l := []int{120, 121, 122, 248, 249, 250, 255, 256, 504, 505, 506}[rapid.IntRange(0, 10).Draw(rt, "componentLen")]
+		name := strings.Repeat("L", l)
+		p := name
+		if rapid.Bool().Draw(rt, "asDirectory") {
+			p = name + "/" + g.Component()
+		}
+		clash := false
+		for q := range set {
+			if strings.HasPrefix(q, name+"/") || q == name {
+				clash = true
+			}
+		}
+		if !clash {
+			set[p] = true
+		}
+	}
 	out := make([]string, 0, len(set))
 	for p := range set {
 		out = append(out, p)
@@ -365,6 +383,12 @@ func TestC05(t *testing.T) {
 			dir := []string{"", "many/", "d/many-x/"}[rapid.IntRange(0, 2).Draw(rt, "manyDir")]
 			for i := 0; i < n; i++ {
 				c.Entries = append(c.Entries, gitfmt.IndexEntry{ID: genID(rt), Path: fmt.Sprintf("%sf%04d", dir, i)})
+			}
+			if rapid.Bool().Draw(rt, "bigChildToo") {
+				// a big tree whose FIRST child is a big tree too (both larger than a page)
+				for i := 0; i < n; i++ {
+					c.Entries = append(c.Entries, gitfmt.IndexEntry{ID: genID(rt), Path: fmt.Sprintf("%sa-first/g%04d", dir, i)})
+				}
 			}
 			c.Entries = dedupeSorted(c.Entries)
 		}
